@@ -314,7 +314,11 @@ func (s *SVCBMandatory) parse(b string) error {
 	for len(b) > 0 {
 		var key string
 		key, b, _ = strings.Cut(b, ",")
-		codes = append(codes, svcbStringToKey(key))
+		code := svcbStringToKey(key)
+		if code == svcb_RESERVED {
+			return errors.New("bad svcbmandatory: unknown key")
+		}
+		codes = append(codes, code)
 	}
 	s.Code = codes
 	return nil
